@@ -505,6 +505,7 @@ impl Rig {
                 Some(l) if l > self.max => "wedge-oversize-prefix",
                 _ => "spurious-toolarge",
             },
+            "under" => "wedge-under-length-prefix",
             "nothing" => "lost-message",
             "eof" => "stuck-after-eof",
             "conn" => "stuck-not-readable",
@@ -961,8 +962,15 @@ impl Area for ChannelArea {
                             }
                             Err(e) => {
                                 let s = err_str(&e);
-                                // a frame that fits the ceiling with an empty back buffer must be accepted
                                 run.tags.push(format!("werr:{}", s.split(' ').next().unwrap()));
+                                // back-pressure (pending + frame > max) is legitimate; refusing a frame
+                                // that fits the ceiling while nothing is pending is not
+                                if flen <= g.max && g.w.back_buf.available_data() == 0 {
+                                    run.oracle.push((
+                                        "write-refused-frame-within-max".into(),
+                                        format!("frame of {flen} B refused ({s}) with an empty back buffer, max {}", g.max),
+                                    ));
+                                }
                                 format!("err {s}")
                             }
                         }
